@@ -311,6 +311,16 @@ func (c *L2) DeliverGas(gasLimit uint64, msgs ...sdk.Msg) Result {
 	return r
 }
 
+// DeliverGasPre: DeliverGas on a meter that already carries pre units of consumption.
+func (c *L2) DeliverGasPre(gasLimit, pre uint64, msgs ...sdk.Msg) Result {
+	c.maybeRestart()
+	c.runShadow()
+	r := deliverPre(c.Ctx, c.Router, gasLimit, pre, msgs...)
+	c.countShadow(r)
+	c.T.AddResult(msgs, r)
+	return r
+}
+
 func (c *L2) Dump(only ...string) []KV { return DumpStores(c.Ctx, c.Keys, only...) }
 
 // BlockResult is what the engine observes from one block's begin/end hooks.
